@@ -264,6 +264,7 @@ fn run(cmd: &str, args: &[String], seed: u64, rep: &mut Report) {
                 mutations: vec![],
             };
             settings::replay(&ctx, &read_ndjson(arg(&args, "--in").unwrap()), seed, &mut rep);
+            settings::clap_texts(&ctx, seed, &mut rep);
         }
         "common-view" => {
             let ctx = fuzz::Ctx {
